@@ -19,12 +19,13 @@ pub fn check() -> Check {
         id: "C07",
         run_shard,
         replay,
+        prepare: Some(prepare),
         floor_quick: 100_000,
         floor_thorough: 1_000_000,
         rule: "G1: every line of length <= 10 (quick) / 11 (thorough) over {a, space, quote, backslash, dash, e-acute} tokenised by Tokens::new and compared with a reference grammar written from the property; \
                G2: random lines up to 200 chars over 1-4-byte characters; G3: round trip - random lists of 0-6 arbitrary NUL-free strings rendered fully or minimally quoted, with or without blanks after closing quotes, must tokenise back to exactly the list; \
                G4: the same lists typed through a whole Cli and read back by the handler (after `x --`, or as the whole line: name + classified arguments); renderings may leave the last quote open; \
-               G1b: every line of <= 8/9 symbols over {a, space, quote, U+00A0, U+3000} and over {a, space, quote, TAB, U+001F} (Unicode blanks and control characters are ordinary characters); G5: every line of <= 7/8 symbols over the first alphabet typed through the Cli and compared with the reference dispatch; G6: lines with 254..600 (thorough: also 65534..65537) tokens; G7: ten line shapes with blank runs, words, quoted tokens and escape runs of every length 0..300 (thorough 1100), every third also through the Cli. \
+               G1b: every line of <= 8/9 symbols over {a, space, quote, U+00A0, U+3000} and over {a, space, quote, TAB, U+001F} (Unicode blanks and control characters are ordinary characters); G5: every line of <= 7/8 symbols over the first alphabet typed through the Cli and compared with the reference dispatch; G6: lines with 254..600 (thorough: also 65534..65537) tokens; G7: ten line shapes with blank runs, words, quoted tokens and escape runs of every length 0..300 (thorough 1100), every third also through the Cli; G8: a coverage-guided campaign (libFuzzer + ASan, dictionary of quotes, escapes, option syntax, number words, look-alike dashes and blanks) with the reference grammar and classifier inside the target. \
                Non-trivial = the line contains an empty quoted token, an escape, or a quote adjacent to another token; distinct by line content.",
         assumptions: &[
             "inside quotes a backslash followed by anything but quote or backslash, and a dangling final backslash, are left open by the property: on such lines (skipped_unspecified) the token boundaries and all other characters are still compared, the open escape may yield c or backslash-c (nothing or a backslash at the end of the line)",
@@ -235,7 +236,22 @@ fn check_roundtrip_cli(list: &[String], line: &str) -> Verdict {
     Ok(())
 }
 
+fn fuzz_case(d: &[u8]) -> Value {
+    json!({"line": String::from_utf8_lossy(d)})
+}
+
+/// G8: coverage-guided search with the reference grammar inside the target (libFuzzer + ASan, dictionary of spellings
+/// parsers treat specially); seeds = short lines over the enumeration alphabets and a few renderings
+fn prepare(tier: vmodel::engine::Tier, seed: u64, _dir: &std::path::Path) -> Result<Value, super::PrepError> {
+    let mut seeds: Vec<Vec<u8>> = Vec::new();
+    for l in ["a b", "\"a b\" c", "\"\" x", "a\"b c\"", "\"q\\\"\\\\\" z", "x -- -y --z", "é \"ж ₿\" 𝄞", "  lead  trail  ", "\"open", "a \\ b", "set \"C:\\dir\" 1"] {
+        seeds.push(l.as_bytes().to_vec());
+    }
+    super::fuzzdrv::prepare_fdiff("C07", "tokens", "tokens-random", "text.dict", tier, seed, seeds, fuzz_case)
+}
+
 fn run_shard(ctx: &ShardCtx) {
+    super::fuzzdrv::replay_fdiff_corpus(ctx, "C07", "tokens", "tokens-random", fuzz_case);
     // G1
     let syms: [&str; 6] = ["a", " ", "\"", "\\", "-", "é"];
     let depth = ctx.tier.pick(10u32, 11u32);
